@@ -6,7 +6,7 @@
      gtf: get_exon_with_start/end, get_exon_containing, has_junction, coordinate_genomic_to_gene
    plus the declarative GVF semantics (apply_record) and the alternative isoforms (the alt_ functions).
    Definitions only. *)
-From MoPep Require Import Model.Base.
+From MoPep Require Import Model.Base Gen.RmatsConst.
 Open Scope Z_scope.
 
 (* ------------------------------------------------------------------ data *)
@@ -384,8 +384,9 @@ Definition mxe_convert (g : gene) (gseq : list Z) (f1s f1e f2s f2e us ue ds de :
   Ok (id, dedup_first same_key [] rs).
 
 (* RI: only upstream end (ue) and downstream start (ds) are used *)
+(* `exon_start < ue < ds < exon_end - k` ; k is read from the source on every run (Gen/RmatsConst.v) *)
 Definition ri_cond (x : exon) (ue ds : Z) : Z :=
-  if (fst x <? ue) && (ue <? ds) && (ds <? snd x - 1) then 1 else 0.
+  if (fst x <? ue) && (ue <? ds) && (ds <? snd x - ri_end_slack) then 1 else 0.
 Fixpoint ri_scan (l : list exon) (ue ds : Z) : bool * Z :=          (* (spliced, #retained appends) *)
   match l with
   | [] => (false, 0)
